@@ -3,6 +3,7 @@
 //!   sweep          exhaustive table-oracle sweeps (channel C)
 //!   oracle-sample  log oracle + implementation answers for TLC (channel B)
 mod cases;
+mod cron;
 mod model;
 mod ops;
 mod sessions;
@@ -21,6 +22,7 @@ fn main() {
         "oracle-sample" => sweep::oracle_sample(&args[2..]),
         "replay" => cases::main(&args[2..]),
         "record" => sessions::main(&args[2..]),
+        "record-cron" => cron::record(&args[2..]),
         other => {
             eprintln!("unknown sub-command {}", other);
             std::process::exit(2);
